@@ -51,6 +51,7 @@ def answer (op : String) (rest : List String) : String :=
         | .ok b => "ok valid=" ++ showBool b.validate.isEmpty ++ " id=" ++ showBool (b.id == idb)
         | _ => "undecodable")
      | _, _ => "bad-op")
+  | "cli.nop", _ => "ok"
   | "cli.dur", [h] =>
     (match bytesOfHex h with
      | some s =>
